@@ -302,7 +302,8 @@ int mod_deregister(m_mod_t **mod, bool from_user) {
     m_mod_t *m = *mod;
     M_MOD_CTX(m);
     
-    if ((m->flags & M_MOD_PERSIST) && c->state == M_CTX_LOOPING) {
+    /* Only a direct m_mod_deregister() call is denied: a replaceable module can still be replaced */
+    if (from_user && (m->flags & M_MOD_PERSIST) && c->state == M_CTX_LOOPING) {
         return -EPERM;
     }
     
